@@ -1979,7 +1979,14 @@ impl OutstationSession {
         mode: BroadcastConfirmMode,
         request: Request<'_>,
     ) -> BroadcastAction {
-        self.state.last_broadcast_type = Some(mode);
+        // a confirm-mandatory broadcast keeps its claim until a response that reports it has been
+        // confirmed: a later broadcast that asks for less does not waive that, it only has to be
+        // reported (again) by a response sent from now on
+        let mandatory_pending =
+            self.state.last_broadcast_type == Some(BroadcastConfirmMode::Mandatory);
+        if !(mandatory_pending && mode != BroadcastConfirmMode::Mandatory) {
+            self.state.last_broadcast_type = Some(mode);
+        }
         self.state.broadcast_reported = false;
         let action = self
             .process_broadcast_get_action(frame_id, database, request)
